@@ -1118,8 +1118,11 @@ func (l *channelLink) resolveFwdPkgs(ctx context.Context) error {
 	}
 
 	// If any of our reprocessing steps require an update to the commitment
-	// txn, we initiate a state transition to capture all relevant changes.
-	if l.channel.NumPendingUpdates(lntypes.Local, lntypes.Remote) > 0 {
+	// txn, or we still owe the remote party a signature for updates of
+	// theirs that we have already revoked for (the link went down between
+	// our revoke_and_ack and our commit_sig), we initiate a state
+	// transition to capture all relevant changes.
+	if l.channel.OweCommitment() {
 		return l.updateCommitTx(ctx)
 	}
 
